@@ -36,6 +36,7 @@ type boxStats struct {
 	FlagTrans      map[string]int `json:"transitions_with"`
 	FlagStates     map[string]int `json:"states_first_reached_with"`
 	EventCounts    map[string]int `json:"transitions_by_event"`
+	BatchShapes    map[string]int `json:"proposeBatch_transitions_by_shape,omitempty"`
 	Sim            simStats       `json:"library_executions"`
 	MaxBacklog     int            `json:"max_apply_backlog_committed_minus_applied"`
 	CampBacklog    int            `json:"campaigns_executed_with_committed_conf_changes_unapplied"`
@@ -233,6 +234,12 @@ func (co *coord) runBox(bi int, deadline time.Time) *boxStats {
 		for i := range recs {
 			rc := &recs[i]
 			st.EventCounts[evNames[rc.ev.K]]++
+			if rc.ev.K == evBatch && rc.ev.A>>8 < bsShapes {
+				if st.BatchShapes == nil {
+					st.BatchShapes = map[string]int{}
+				}
+				st.BatchShapes[bsNames[rc.ev.A>>8]]++
+			}
 			if int(rc.backlog) > st.MaxBacklog {
 				st.MaxBacklog = int(rc.backlog)
 			}
@@ -433,8 +440,8 @@ func (co *coord) runBox(bi int, deadline time.Time) *boxStats {
 			co.samples = append(co.samples, map[string]interface{}{"box": box.ID, "why": why, "events": lines})
 		}
 		addSample("deepest path", deepest)
-		for _, b := range []int{bit(fCommitOlderTerm), bit(fTruncation), bit(fSnapApplied), bit(fConfApplied), bit(fTwoLeaders), bit(fSnapBehindCompact), bit(fCampaignRefused), bit(fSnapWhileHeld), bit(fTruncInReady)} {
-			if id, ok := firstWith[b]; ok && len(co.samples) < 14 {
+		for _, b := range []int{bit(fCommitOlderTerm), bit(fTruncation), bit(fSnapApplied), bit(fConfApplied), bit(fTwoLeaders), bit(fSnapBehindCompact), bit(fCampaignRefused), bit(fSnapWhileHeld), bit(fTruncInReady), bit(fConfRefusedBatchWindow), bit(fBatchForwarded)} {
+			if id, ok := firstWith[b]; ok && (len(co.samples) < 14 || (b == bit(fConfRefusedBatchWindow) && len(co.samples) < 18)) {
 				addSample("first path with "+flagNames[b], id)
 			}
 		}
@@ -484,7 +491,7 @@ func run(prop string) int {
 	os.Setenv("RAFTMC_COORD", strconv.Itoa(os.Getpid()))
 	total := 100 * time.Second
 	if tier == "thorough" {
-		total = 32 * time.Minute // 17 min for the boxes up to round 2 + 7 min for the apply-lag boxes B10 / B11 + 7 min of slices (6 min used) for the persist-lag boxes B12*
+		total = 39 * time.Minute // 17 min for the boxes up to round 2 + 7 min for the apply-lag boxes B10 / B11 + 7 min of slices (6 min used) for the persist-lag boxes B12* + 7 min of slices (5.3 min used at load average 60) for the batch-proposal boxes B13*
 	}
 	if s := os.Getenv("RAFTMC_BUDGET_S"); s != "" {
 		if n, err := strconv.Atoi(s); err == nil {
@@ -565,6 +572,15 @@ func run(prop string) int {
 	cov["traces_validated_against_impl"] = trans
 	cov["max_depth"] = maxDepth
 	cov["exhaustive"] = exhaustive && len(co.found) == 0 && len(co.internal) == 0
+	if len(skipInv) > 0 {
+		var off []string
+		for k := range skipInv {
+			off = append(off, k)
+		}
+		sort.Strings(off)
+		cov["invariants_switched_off_by_RAFTMC_SKIP_INV"] = off
+		cov["exhaustive"] = false
+	}
 	cov["completed_bounds"] = completed
 	cov["boxes"] = co.stats
 	cov["violating_transitions"] = co.nviol
@@ -685,6 +701,33 @@ func run(prop string) int {
 		"a crash loses a held Ready entirely (storage untouched, messages never sent). Counters are recorded transitions: readys_held = transitions that ended with a fresh Ready held; inputs_stepped = library calls on a node holding one; " +
 		"msgapps_that_truncated_* = a MsgApp stepped by such a node replaced unstable entries (conflict with a leader of a later term) / starting strictly inside the unstable entries (the third case of unstable.truncateAndAppend) / starting inside the index range of the held Ready's Entries, i.e. the slots the application is about to persist"
 	cov["persist_lag_coverage"] = plagcov
+	// multi-entry proposals (boxes B13*)
+	batchcov := map[string]interface{}{}
+	for _, b := range []int{bit(fBatchStepped), bit(fBatchForwarded), bit(fBatchDropped), bit(fConfAccepted), bit(fConfDowngraded), bit(fConfRefusedBatchWindow), bit(fTwoConfUnapplied)} {
+		batchcov[flagNames[b]] = agg[flagNames[b]]
+	}
+	byShape := map[string]int{}
+	nBatch := 0
+	var batchBoxes []string
+	for _, st := range co.stats {
+		for k, v := range st.BatchShapes {
+			byShape[k] += v
+		}
+		nBatch += st.EventCounts[evNames[evBatch]]
+		if st.Box != nil && st.Box.Bud.Batches > 0 {
+			batchBoxes = append(batchBoxes, st.Box.ID)
+		}
+	}
+	batchcov["proposeBatch_transitions"] = nBatch
+	batchcov["proposeBatch_transitions_by_shape"] = byShape
+	batchcov["boxes_with_batch_proposals_in_the_alphabet"] = batchBoxes
+	batchcov["legend"] = "proposeBatch(n, shape): RawNode.Step(MsgProp{From: n, Entries: ...}) with several entries - normal entries b<k>.<pos> and conf changes in the order of the shape - on leader or follower (a follower forwards the message unchanged, the forwarded MsgProp is delivered, lost, delayed like any message). " +
+		"Counters are recorded transitions, over all boxes (the conf-change counters include proposeConf and the boxes B4 / B10 / B11 / B12): batch_proposals_appended_by_a_leader = a leader stepped a MsgProp with >= 2 entries, its own or a forwarded one, and appended the entries; " +
+		"proposals_in_which_the_leader_accepted_a_conf_change / ..._turned_a_conf_change_into_an_empty_normal_entry = what the leader stored at the position of a proposed conf change (the library neutralises a conf change it refuses - one is pending, or the joint-configuration rules - instead of dropping the proposal); " +
+		"conf_changes_refused_while_the_pending_one_sits_behind_an_applied_normal_entry_of_its_own_batch = such a refusal while the leader has applied the normal entry in front of the pending conf change of the same MsgProp and not the conf change itself " +
+		"(the window in which bookkeeping that points at the first entry of the batch instead of the conf change would let a second conf change in); " +
+		"leader_with_two_or_more_conf_changes_above_its_applied_index = transitions into a state in which some leader's log holds >= 2 unapplied conf changes; AtMostOnePendingConfChange requires that none but the first is of the leader's own term"
+	cov["batch_proposal_coverage"] = batchcov
 	assumptions := []string{
 		"a node's local step and the handling of the Ready structs it produces (persist, send, apply, Advance) form one atomic transition; a crash in between is represented by crash + message loss. Exceptions: boxes with plag in their alphabet (B12*, next item) and boxes with lag in their alphabet (B10, B11): a node in lag mode persists and sends a Ready with committed entries but holds its committed page and its Advance; until apply / unlag the library is called without a Ready cycle (no further Ready is taken while one is held, like etcd's node.run). The application installs a Ready's snapshot when it persists the Ready (raftexample's order), before the held page",
 		"persist lag (boxes B12*): a node in plag mode holds every Ready as a whole - nothing persisted, sent or applied - until persist(n), which handles it from the held value in raftexample's order (HardState, snapshot, entries, messages, committed entries, Advance); inputs in between call the library without a Ready cycle; a crash loses the held Ready. The state key then also contains the held Ready's HardState, entry range and content hash, snapshot boundary, message count and content hash",
@@ -697,6 +740,7 @@ func run(prop string) int {
 		"the application snapshots at its applied index and compacts the log up to the same index (no catch-up entries are kept); snapshot payload = running hash of the applied entries, which stands for the state machine",
 		"a delayed message (delay / dupDelayed) stays outside the network for an arbitrary time and re-enters it at a quiescent point (release); the set of delayed messages is part of the state",
 		"Box B de-duplicates on (state, FIFO order of the pool) with the minimum number of deviations; Box A on (state, multiset of the pool)",
+		"a leader's pendingConfIndex (read through a reflection offset) is part of the state key, canonicalised to 0 below the applied index: in the library as it is it is a function of the leader's log and term, so no state is split; proposals enter through Propose / ProposeConfChange (one entry per MsgProp) and, in the boxes B13*, through Step(MsgProp) with several entries (proposeBatch)",
 	}
 	code := co.rep.Finish(cov, assumptions)
 	if len(co.internal) > 0 || flaky {
